@@ -76,7 +76,7 @@ func runC16(c *Ctx) {
 		{"string", "length", armSpec{Results: []string{neutral0, "&lang.NewValue(len(*this.Str))"}, Effects: []string{}, Guards: map[string][]string{"&lang.NewValue(len(*this.Str))": strGuard}, Source: "string length counts bytes"}},
 		{"string", "upper", armSpec{Results: []string{neutral0, "&lang.NewValue(strings.ToUpper(*this.Str))"}, Effects: []string{}, Guards: map[string][]string{"&lang.NewValue(strings.ToUpper(*this.Str))": strGuard}, Source: "upper returns a case-mapped copy"}},
 		{"string", "lower", armSpec{Results: []string{neutral0, "&lang.NewValue(strings.ToLower(*this.Str))"}, Effects: []string{}, Guards: map[string][]string{"&lang.NewValue(strings.ToLower(*this.Str))": strGuard}, Source: "lower returns a case-mapped copy"}},
-		{"string", "split", armSpec{Results: []string{"&lang.Value{Tag: ValueArray, Array: [][:0], Proto: lang.getArrayPrototype()}", "&lang.NewValue(strings.Split(*this.Str, *lang.checkArg(v, 0, ValueStr)#0.Str))"}, Effects: []string{},
+		{"string", "split", armSpec{Results: []string{"&EMPTYARRAY", "&lang.NewValue(strings.Split(*this.Str, *lang.checkArg(v, 0, ValueStr)#0.Str))"}, Effects: []string{},
 			Guards: map[string][]string{"&lang.NewValue(strings.Split(*this.Str, *lang.checkArg(v, 0, ValueStr)#0.Str))": append([]string{"lang.checkArg(v, 0, ValueStr)#1 == nil"}, strGuard...)}, Source: "s.split(sep): strings.Split(receiver, separator), empty array for a non-string receiver"}},
 		{"object", "length", armSpec{Results: []string{neutral0, "&lang.NewValue(len(*this.Obj))"}, Effects: []string{}, Guards: map[string][]string{"&lang.NewValue(len(*this.Obj))": objGuard}, Source: "object length counts keys"}},
 		{"number", "floor", armSpec{Results: []string{neutralNull, "&lang.NewValue(math.Floor(*this.Num))"}, Effects: []string{}, Guards: map[string][]string{"&lang.NewValue(math.Floor(*this.Num))": numGuard}, Source: "floor: mathematical floor"}},
